@@ -361,7 +361,21 @@ func (a *API) WalkOp(name string, nReplies int) ([]OpPath, *Walker, error) {
 	}
 	w := NewWalker(a.P)
 	w.LoopFuel = 6
-	w.Inline = func(f *ssa.Function, d int) bool { return f.Parent() != nil }
+	up := a.P.SSAPkg("uhppote")
+	w.Inline = func(f *ssa.Function, d int) bool {
+		if f.Parent() != nil {
+			return true
+		}
+		// unexported in-package helpers are part of the operation; boolean predicates stay opaque ("pred")
+		if f.Pkg == up && f.Object() != nil && !f.Object().Exported() && a.Senders[f] == "" && (f.Origin() == nil || a.Senders[f.Origin()] == "") {
+			res := f.Signature.Results()
+			if res.Len() == 1 && isBoolType(res.At(0).Type()) {
+				return false
+			}
+			return f.Name() != "debugf"
+		}
+		return false
+	}
 	// in-module unexported predicates are named structurally, never by identifier
 	w.CallName = func(callee *ssa.Function, name string) (string, bool, bool) {
 		if callee != nil && callee.Pkg != nil && callee.Pkg == a.P.SSAPkg("uhppote") && callee.Object() != nil && !callee.Object().Exported() {
